@@ -17,7 +17,8 @@
 From Coq Require Import List ZArith Bool.
 From ApiFu Require Import Base.Sexp Cost.CostModel Cost.CostSpec Cost.CostProofs.
 From ApiFu Require Val.Values Val.CoerceModel Val.CoerceSpec Val.CoerceProofs Relay.RelayModel.
-From ApiFu Require Import Cost.CostArgs Cost.CostArgsProofs Cost.CostFragments Cost.CostRelay Cost.CostTrace Cost.CostTraceProofs.
+From ApiFu Require Import Cost.CostArgs Cost.CostArgsProofs Cost.CostFragments Cost.CostRelay Cost.CostTrace Cost.CostTraceProofs Cost.CostC04.
+From ApiFu Require Vld.Ast Vld.ValidatorModel Vld.Hyps Vld.ProofsCommon.
 Import ListNotations.
 Open Scope Z_scope.
 
@@ -396,6 +397,72 @@ Theorem C14_every_cost_call_conforms : forall (C : Type) E dt skip_zero fuel dc 
             CoerceSpec.args_conform_b E (af_argdefs (c_field c)) (c_args c) = true.
 Proof. exact trace_calls_conform. Qed.
 
+
+(** ** reference coercion of every call, for any document (Cost/CostC04.v; jointly with C05's
+    refinement lemmas).  Only uniqueness facts are needed: argument names unique per selection
+    (5.4.2), input-object field names unique per literal (5.6.3, [lit_nodup]), also in the default
+    values of the chosen operation [o].  Then every argument map a cost function is called with
+    during the walk is GraphQL's CoerceArgumentValues (6.4.1) of that selection's literals under
+    CoerceVariableValues (6.1.2) of the request — C05's reference functions. *)
+Theorem C14_every_cost_call_is_reference_coerced :
+  forall (C : Type) E dt skip_zero fuel dc ctx0 ops frs opname raw max (o : aop C),
+  chosen_op C ops opname = Some o ->
+  CoerceSpec.env_ok E = true ->
+  (forall p, In p raw -> CoerceSpec.jval_ok (snd p) = true) ->
+  (forall def dflt, In def (ao_vardefs o) -> Values.vd_default def = Some dflt -> CoerceSpec.lit_nodup dflt = true) ->
+  (forall f, in_request C o frs f ->
+             CoerceSpec.dup_names (map fst (af_args f)) = false /\
+             forall a l, In (a, l) (af_args f) -> CoerceSpec.lit_nodup l = true) ->
+  forall c, In c (snd (validate_cost_trace C E dt skip_zero fuel dc ctx0 ops frs opname raw max)) ->
+    exists vv,
+      CoerceSpec.ref_variable_values E dt (ao_vardefs o) raw = Some vv /\
+      CoerceSpec.ref_argument_values E dt (af_argdefs (c_field c))
+        (map (fun p => match p with (k, l) => (k, CoerceSpec.abs_lit vv l) end) (af_args (c_field c))) = Some (c_args c).
+Proof. exact trace_calls_reference. Qed.
+
+(** ** behind the validator (C04 x C05 x C14).
+
+    FULL STATEMENT: for every schema, every document [D] accepted by C04's [validate_model repaired]
+    and every request for it, every call of a cost function made by the cost walk over [D] sees an
+    argument map that conforms to the declared argument types and is the reference coercion of what
+    the client sent.
+
+    PROVED (partial): the statement with the correspondence between C04's encoding of the document
+    ([D]: AST with positions and TypeInfo annotations, schema [S]) and the encoding the cost rule's
+    model walks ([ops], [frs] with C05 literals, input types [E]) as the explicit hypothesis
+    [document_bridge] (Cost/CostC04.v): three implications, each from a specification fact C04 PROVES
+    of an accepted document — 5.4 ([C04_accepted_arguments_hold]), 5.6
+    ([C04_validate_verdict_partial]), the order-free content of validateVariables
+    ([C04_variables_rule_iff] through [C04_accepted_iff_rules_silent]) — to the fact about the
+    request's field selections that C05's lemmas consume (argument names unique; [lit_nodup];
+    [usage_ok]).  The proof derives the three C04 facts from acceptance and then applies
+    [C14_every_cost_call_conforms] and [C14_every_cost_call_is_reference_coerced].
+    NOT PROVED, the exact gap: [document_bridge] itself, i.e. a translation between the two
+    encodings of a document that preserves argument lists, expected types and variable uses — item
+    (c) "the document level" of [C05_C04_coercion_bridge_partial]; C04 and C05 only relate single
+    literals ([BridgeC04.tr_lit]).  For object-free literals the [lit_nodup] part holds outright
+    ([obj_free_lit_nodup]).  The three request-side facts are checked on every case through the real
+    validator (std = 0) and the call-list comparison. *)
+Theorem C14_accepted_document_cost_calls_partial :
+  forall (C : Type) E dt pi S F D (ops : list (aop C)) frs opname raw o skip_zero fuel dc ctx0 max,
+  ProofsCommon.order_ok pi -> Hyps.schema_ok S = true ->
+  ValidatorModel.validate_model ValidatorModel.repaired pi S F D = Ast.Done [] ->
+  Hyps.values_typed_input S F D = true ->
+  document_bridge C E S F D frs o ->
+  chosen_op C ops opname = Some o ->
+  CoerceSpec.env_ok E = true ->
+  (forall f, in_request C o frs f ->
+             CoerceModel.has_dup (map fst (af_argdefs f)) = false /\
+             forall ad, In ad (af_argdefs f) -> CoerceSpec.default_ok E (snd ad) = true) ->
+  (forall p, In p raw -> CoerceSpec.jval_ok (snd p) = true) ->
+  forall c, In c (snd (validate_cost_trace C E dt skip_zero fuel dc ctx0 ops frs opname raw max)) ->
+    CoerceSpec.args_conform_b E (af_argdefs (c_field c)) (c_args c) = true /\
+    exists vv,
+      CoerceSpec.ref_variable_values E dt (ao_vardefs o) raw = Some vv /\
+      CoerceSpec.ref_argument_values E dt (af_argdefs (c_field c))
+        (map (fun p => match p with (k, l) => (k, CoerceSpec.abs_lit vv l) end) (af_args (c_field c))) = Some (c_args c).
+Proof. exact accepted_document_cost_calls. Qed.
+
 Print Assumptions C14_checked_mul_spec.
 Print Assumptions C14_checked_add_spec.
 Print Assumptions C14_select_op_spec.
@@ -430,3 +497,5 @@ Print Assumptions C14_connection_edge_count_accepts.
 Print Assumptions C14_trace_is_the_walk.
 Print Assumptions C14_every_cost_call_is_coerced.
 Print Assumptions C14_every_cost_call_conforms.
+Print Assumptions C14_every_cost_call_is_reference_coerced.
+Print Assumptions C14_accepted_document_cost_calls_partial.
